@@ -50,7 +50,7 @@ def phase1(job):
 
 
 def setup_slot(k):
-    d = os.path.join(POOL, "s%d" % k)
+    d = os.path.join(POOL, "s%d" % (k + int(os.environ.get("VPOOL_BASE", "0"))))     # VPOOL_BASE: keep clear of a run using slots 0..n
     os.makedirs(d, exist_ok=True)
     v, r = os.path.join(d, "verif"), os.path.join(d, "repo")
     run("rsync -a --delete --exclude .git --exclude replays --exclude 'thorough_*' %s/ %s/" % (VERIF, v), "/")
